@@ -23,7 +23,7 @@ Model: `Exa.Flow` (M-Flow, `Model/Flow.lean`).
 
 What the unchanged tree gets wrong is *not* hidden in hypotheses: `GoodText` (the texts for which
 ExaBGP's encoder is proved to be the RFC encoder) excludes exactly IPv6 offsets ≠ 0, values above
-the RFC width, repeated/mixed-family prefixes and non-canonical host bits, and the `example`s at
+the RFC width (refused by the parser), repeated/mixed-family prefixes and non-canonical host bits, and the `example`s at
 the end of the file exhibit the model's (and, by the correspondence run, the code's) behaviour on
 those inputs.
 -/
@@ -248,17 +248,10 @@ theorem text_actions_wellformed (ta : TAction) (a : Action) (h : exaAction ta = 
 /-! ## Tables extracted from the code -/
 
 open Exa.Generated.FlowTable in
-/-- **Component table (partial).** Full statement: `table4 = specTable false ∧ table6 = specTable true`
-    (IDs, operator family and allowed value sizes of the code = RFC 8955/8956).  It is false of the
-    unchanged tree in one row — `FlowFragment.VALUE_SIZES = (1, 2)` where RFC 8955 §4.2.2.12 says the
-    bitmask MUST be a single octet — so what is proved is: IDs and families agree in every row, and
-    every row except type 12 agrees entirely. -/
-theorem table_matches_rfc_partial :
-    table4.map (fun r => (r.1, r.2.1)) = (specTable false).map (fun r => (r.1, r.2.1)) ∧
-    table6.map (fun r => (r.1, r.2.1)) = (specTable true).map (fun r => (r.1, r.2.1)) ∧
-    (∀ r ∈ table4, r.1 ≠ 12 → r ∈ specTable false) ∧ (∀ r ∈ table6, r.1 ≠ 12 → r ∈ specTable true) ∧
-    (∀ r ∈ table4, r.1 = 12 → r = (12, 2, [1, 2])) ∧ (∀ r ∈ table6, r.1 = 12 → r = (12, 2, [1, 2])) := by
-  refine ⟨by decide, by decide, by decide, by decide, by decide, by decide⟩
+/-- **Component table.** IDs, operator family and allowed value sizes registered in the code
+    (`flow.decode`, `flow.factory`, `VALUE_SIZES`) are the RFC 8955/8956 table, for both families. -/
+theorem table_matches_rfc : table4 = specTable false ∧ table6 = specTable true := by
+  refine ⟨by decide, by decide⟩
 
 /-- the RFC table is what `kindOf` / `maxWidth` (used by every theorem above) say, for both families,
     and a type is defined iff it is 1–12, or 13 for IPv6 -/
@@ -303,7 +296,7 @@ theorem code_constants :
     numEQ = opByte false false 0 false false true ∧ binNOT = numGT ∧ binMATCH = numEQ ∧
     power = [0, 1, 2, 3].map (fun c => (c, opWidth (c * 16))) ∧
     (∀ n, exaEncodeLength n =
-      if n < lengthCompactMax then .ok [n] else if n < lengthExtendedMax then .ok [lengthExtendedValue + n / 256, n % 256]
+      if n < lengthCompactMax then .ok [n] else if n ≤ lengthExtendedMax then .ok [lengthExtendedValue + n / 256, n % 256]
       else .error .tooLong) ∧
     (∀ n, exaHi n = n * 2 ^ lengthExtendedShift) ∧ lengthExtendedMask = 0xF0 ∧ lengthLowerMask = 0x0F := by
   refine ⟨by decide, by decide, by decide, by decide, by decide, by decide, by decide, by decide, by decide, ?_, ?_, by decide, by decide⟩
@@ -333,12 +326,12 @@ theorem generated_sizes_ok : SizesOk Exa.Generated.FlowTable.sizeOf := by
 /-- **ExaBGP's encoder is the RFC encoder on good text.** For every text whose components the
     RFCs can express (`GoodText`: one family, at most one source and one destination, canonical
     prefixes with offset 0, values within the RFC width, any number of operator keywords in any
-    order, repeated operator keywords), with or without route distinguisher, below 4095 bytes:
+    order, repeated operator keywords), with or without route distinguisher, up to 4095 bytes:
     `Flow.pack_nlri` as modelled (dict by ID, `sorted`, EOL rewrite, width by encoder class of the
     generated table) emits exactly the reference encoding of the rule the text denotes, in the
     family of its prefixes. -/
 theorem exa_pack_reference (v6 : Bool) (rd : Option Bytes) (text : List TComp) (hg : GoodText v6 text)
-    (hlen : (nlriPayload ⟨rd, toRule v6 text⟩).length < 4095) :
+    (hlen : (nlriPayload ⟨rd, toRule v6 text⟩).length ≤ 4095) :
     exaPack Exa.Generated.FlowTable.sizeOf rd text
       = .ok (text.any (fun c => c.isV6), encodeNlri ⟨rd, toRule v6 text⟩) :=
   exaPack_good _ v6 rd text generated_sizes_ok hg hlen
@@ -347,7 +340,7 @@ theorem exa_pack_reference (v6 : Bool) (rd : Option Bytes) (text : List TComp) (
     applied to the bytes ExaBGP's encoder emits (followed by anything) returns the rule as written
     in text, the route distinguisher as written, and consumes exactly the NLRI. -/
 theorem exa_pack_meaning (v6 vpn : Bool) (rd : Option Bytes) (text : List TComp) (rest : Bytes)
-    (hg : GoodText v6 text) (hlen : (nlriPayload ⟨rd, toRule v6 text⟩).length < 4095)
+    (hg : GoodText v6 text) (hlen : (nlriPayload ⟨rd, toRule v6 text⟩).length ≤ 4095)
     (hrd : if vpn then ∃ b, rd = some b ∧ b.length = 8 else rd = none) :
     ∃ fam bs, exaPack Exa.Generated.FlowTable.sizeOf rd text = .ok (fam, bs) ∧
       decodeNlri v6 vpn (bs ++ rest) = .ok (⟨rd, toRule v6 text⟩, rest) := by
@@ -361,18 +354,9 @@ theorem good_text_wellformed (v6 : Bool) (text : List TComp) (hg : GoodText v6 t
 
 /-! ## ExaBGP's decoder: the length field -/
 
-/-- ExaBGP's reading of the two-octet length agrees with the RFC exactly when the low nibble of
-    the first octet is 0, i.e. for lengths below 256 (`FLOW_LENGTH_EXTENDED_SHIFT = 16`). -/
-theorem exa_length_agrees_below_256 (n : Nat) : exaHi n = rfcHi n ↔ n = 0 := by
-  simp only [exaHi, rfcHi]; omega
-
-/-- … and an NLRI announcing 256–4095 bytes in the RFC form is never decoded by it: `unpack_nlri`
-    raises instead (the buffer would have to hold at least 65536 more bytes). -/
-theorem exa_decode_long_raises (v6 vpn : Bool) (b c : Nat) (t : Bytes) (hb : 241 ≤ b ∧ b < 256)
-    (hshort : t.length < 65536) : exaDecode v6 vpn (b :: c :: t) = .raise := by
-  have h1 : b / 16 % 16 = 15 := by omega
-  have h2 : t.length < exaHi (b % 16) + c := by simp only [exaHi]; omega
-  simp only [exaDecode, splitNlri, h1, if_true, h2]
+/-- ExaBGP reads the two-octet length as the RFC does (`FLOW_LENGTH_EXTENDED_SHIFT = 8`, tied to the
+    code by `code_constants`) -/
+theorem exa_length_is_rfc (n : Nat) : exaHi n = rfcHi n := rfl
 
 /-! ## Non-vacuity and witnesses -/
 
@@ -443,8 +427,6 @@ example : toRule false sampleText =
 /-! ### Witnesses: where the model of the unchanged code departs from the RFC (each reproduced on the real
     code by the correspondence run and reported by the oracle) -/
 
-/-- F27: `protocol 256` is accepted by the parser; `pack_nlri` raises `ValueError` -/
-example : exaPack Exa.Generated.FlowTable.sizeOf none [.op 3 1 256] = .error .valueError := by decide
 /-- IPv6 offset: `destination 2001:db8::/64/32` is written with 8 address bytes; RFC 8956 carries the 32 pattern bits -/
 example : exaPack Exa.Generated.FlowTable.sizeOf none [.prefix6 1 0x20010db8000000000000000000000000 64 32]
     = .ok (true, [11, 1, 64, 32, 0x20, 0x01, 0x0d, 0xb8, 0, 0, 0, 0]) ∧
@@ -453,10 +435,9 @@ example : exaPack Exa.Generated.FlowTable.sizeOf none [.prefix6 1 0x20010db80000
 /-- a prefix of the other family is silently dropped by `Flow.add`: the rule sent is broader than written -/
 example : exaPack Exa.Generated.FlowTable.sizeOf none [.prefix4 2 0x0A000000 8, .prefix6 1 0x20010db8000000000000000000000000 32 0]
     = .ok (false, [3, 2, 8, 10]) := by decide
-/-- a payload of exactly 4095 bytes is refused although `0xFFFF` encodes it -/
-example : exaEncodeLength 4095 = .error .tooLong ∧ lengthPrefix 4095 = [255, 255] := by decide
-/-- a flow-vpn NLRI shorter than a route distinguisher is delivered as a rule without one -/
-example : exaDecode false true [3, 3, 0x81, 6] = .ok none [.ops 3 [⟨0x81, [6]⟩]] [] ∧
-    decodeNlri false true [3, 3, 0x81, 6] = .error .rdShort := by decide
+/-- formerly findings, now as the RFC wants them: 4095 bytes is `ff ff`; a flow-vpn NLRI shorter
+    than a route distinguisher is invalid -/
+example : exaEncodeLength 4095 = .ok [255, 255] := by decide
+example : exaDecode false true [3, 3, 0x81, 6] = .invalid [] := by decide
 
 end Exa.Props.C16
